@@ -91,7 +91,10 @@ def panicAllowed (br : BR) : Bool :=
 
 def stepOracles (br : BR) (wl : Option Workload) (br' : Option BR) (wl' : Option Workload) : List (String × Bool) :=
   let common := [("C18.br_gone_only_when_completed", goneOnlyWhenCompleted br br'),
-                 ("C06.no_act_before_persist", noActBeforePersist br wl wl')]
+                 ("C06.no_act_before_persist", noActBeforePersist br wl wl'),
+                 -- C01: the workload is never written from a status (batch index) that is not persisted yet
+                 ("C01.no_act_before_persist", noActBeforePersist br wl wl'),
+                 ("C11.no_act_before_persist", noActBeforePersist br wl wl')]
   match br' with
   | none => common
   | some b =>
